@@ -1050,6 +1050,26 @@ class Engine:
                             self._write_ev(st3, fn, frame, loc, some(rv), t['ln'])
                             outs.append((st3, ('ref', loc + (('dc', 'Some'), '0'))))
                 return outs
+            if name == 'filter':
+                outs = []
+                for st2, inner in self._opt_split(st, args[0]):
+                    if inner is None:
+                        outs.append((st2, NONE))
+                        continue
+                    for st3, rv in self.call_closure(st2, args[1], [inner]):
+                        if rv is PANIC:
+                            outs.append((st3, PANIC))
+                            continue
+                        k = self.known(st3, rv)
+                        if k and k[0] == 'eq':
+                            outs.append((st3, some(inner) if k[1] else NONE))
+                            continue
+                        st_f = st3.copy()
+                        if self.assume(st_f, rv, 0):
+                            outs.append((st_f, NONE))
+                        if self.assume(st3, rv, 1):
+                            outs.append((st3, some(inner)))
+                return outs
             if name in ('as_deref', 'as_deref_mut'):
                 loc = self.deref(args[0])
                 v = self.read(st, loc)
